@@ -17,6 +17,9 @@ worker of `Run` to its blocking points; the table of blocking points is regenera
 * `C13_all_guarded`, `C13_no_unguarded`, `C13_static_facts` — the current tree's tables satisfy the hypotheses
   (`decide` on the regenerated tables: an unguarded blocking point, a plain `errCh <-` next to the non-blocking ones,
   a loop without a ctx case, a changed worker set or `Run` protocol breaks the build of this file).
+* `C13_lock_order_acyclic`, `lock_progress`, `C13_lock_progress`, `reentrant_lock_witness`, `lock_cycle_witness` (round 6,
+  end of this file) — the lock-nesting table (mutexes acquired inside critical sections) has no self edge and no cycle;
+  for every ranked table no set of workers is parked on mutexes for ever: what the `free` flag of a `lock` row rests on.
 * `C13_extractor_complete`, `C13_boundary_declared`, `C13_mutex_regions` — completeness of the regenerated table: the
   extractor resolves calls with type information and follows them to any depth; every call into the repository's
   own packages or through a func value that it could NOT follow is listed in `Gen.C13.callsNotFollowed`, which must be
@@ -122,7 +125,11 @@ ctx select and the operations each loop is known for - AggregationLoop: timer re
 non-blocking error report, the state lock, the broadcast join; Reaper: ticker and the `txNotifyCh` poll; the submission
 loops: their tickers (and the back-off timer of `submitToDA`); DAIncluderLoop: `daIncluderCh`, error report;
 RetrieveLoop: `retrieveCh`, the two event sends; the store loops: their store channel and event send; SyncLoop:
-`headerInCh`, `dataInCh`, tickers, error report, state lock - and at least the number of points it has today. -/
+`headerInCh`, `dataInCh`, tickers, error report, state lock, the three non-blocking signals (channel identity follows
+chan-typed PARAMETERS: `sendNonBlockingSignalWithMetrics(ch, …)`) - and at least the number of DISTINCT points
+(kind, channel, flag) it has today.  Distinct, not raw rows: how many syntactic copies of the same operation a loop has is
+not a property of the node (refactoring R2 folds SyncLoop's three identical error reports into one helper: same table
+up to duplicates); an extractor that loses a KIND of operation of a loop still fails here. -/
 theorem C13_table_skeleton :
     let P := fun l => progOf Gen.C13.points l
     (([0, 1, 2, 3, 4, 5, 6, 7, 8].all fun l => (P l).contains .ctxSelect) = true) ∧
@@ -134,8 +141,11 @@ theorem C13_table_skeleton :
     ([BP.recv .headerStoreCh true, .send .headerInCh true].all (P 6).contains = true) ∧
     ([BP.recv .dataStoreCh true, .send .dataInCh true].all (P 7).contains = true) ∧
     ([BP.recv .headerInCh true, .recv .dataInCh true, .recv .timer true, .send .errCh true, .lock 0 true].all (P 8).contains = true) ∧
-    ([(0, 18), (1, 3), (2, 5), (3, 5), (4, 4), (5, 13), (6, 5), (7, 5), (8, 14)].all
-      fun (lc : Nat × Nat) => decide (lc.2 ≤ (P lc.1).length)) = true := by decide
+    ([BP.send .daIncluderCh true].all (P 2).contains = true) ∧ ([BP.send .daIncluderCh true].all (P 3).contains = true) ∧
+    ([BP.send .daIncluderCh true].all (P 5).contains = true) ∧
+    ([BP.send .retrieveCh true, .send .headerStoreCh true, .send .dataStoreCh true].all (P 8).contains = true) ∧
+    ([(0, 6), (1, 3), (2, 3), (3, 3), (4, 3), (5, 8), (6, 3), (7, 3), (8, 9)].all
+      fun (lc : Nat × Nat) => decide (lc.2 ≤ (P lc.1).eraseDups.length)) = true := by decide
 
 /-- no `time.Sleep` is left on any walk (a sleep is never a guarded point: `BP.guarded (.sleep _) = false`) -/
 theorem C13_no_sleep : (Gen.C13.points.all fun p => p.2.1 != 1) = true := by decide
